@@ -9,3 +9,15 @@ func IsDistributionFilled(distribution map[uint]uint) bool {
 
 	return true
 }
+
+// Unlike IsDistributionFilled, it also takes into account priorities for which the divider
+// has not created an entry in the distribution (such priorities have zero quantity).
+func IsDistributionFilledFor(priorities []uint, distribution map[uint]uint) bool {
+	for _, priority := range priorities {
+		if distribution[priority] == 0 {
+			return false
+		}
+	}
+
+	return true
+}
